@@ -122,9 +122,14 @@ def judge(R, fname, label, f_impl, f_ref, tags, strict_kind=False, sub=None):
 
 
 def axes_of(nd):
-    out = [None] + list(range(-nd, nd))
+    """None, every single axis in both spellings, and every ordered selection of >= 2 distinct axes with every
+    combination of positive / negative spelling of each entry"""
+    out = [None]
+    out += list(range(-nd, nd))
     for k in range(2, nd + 1):
-        out += list(itertools.combinations(range(nd), k))
+        for sel in itertools.permutations(range(nd), k):
+            for signs in itertools.product([0, 1], repeat=k):
+                out.append(tuple(a - nd if s else a for a, s in zip(sel, signs)))
     return out
 
 
